@@ -3,7 +3,7 @@ Contract of SecurityBase.allocate (DESIGN A.6, property C05) and the invariant o
 
 allocate(amount, update)  ==  [update(parent.now) if stale] ; transact(q*, update, False)
 where q* is characterised by the clauses below (q* = 0 stands for "no trade").  The clauses carry the
-code's own tolerances and nothing more:  eps = 1e-8 + 1e-16*|amount|  (np.isclose(rtol=TOL)).
+the tolerance below and nothing more:  eps = 1e-8 + 1e-15*|amount|  (np.isclose's absolute part plus a few ulps; a looser test in the code fails the clause).
 """
 import z3
 
@@ -29,10 +29,15 @@ def integral(q):
     return q.r == z3.ToReal(z3.ToInt(q.r))
 
 
+EXACT_RTOL = 1e-15   # a few ulps of a double: the tightest relative slack under which 'cost equals the amount' is reachable in floats
+
+
 def eps_of(amount):
+    """allowed slack of 'with fractional positions the cost equals the amount': numpy.isclose's absolute 1e-8 plus a few ulps relative
+    (with the former 1e-16 the clause was unreachable in doubles for amounts above ~5e7 and the search could not terminate, see KNOWN_FINDINGS)"""
     if not isinstance(amount, Num):
-        return 1e-08 + 1e-16 * abs(amount)
-    return Num.lift(1e-08) + Num.lift(dsl.TOL) * absv(amount)
+        return 1e-08 + EXACT_RTOL * abs(amount)
+    return Num.lift(1e-08) + Num.lift(EXACT_RTOL) * absv(amount)
 
 
 def needs_update(S, self):
